@@ -1259,6 +1259,8 @@ def run(ctx):
 
 
 VARIANTS = [
+    B("c19-trr-item-table-sliced-one-short", GROMACS, "TRR_DATA_ITEMS = (\n    \"box_size\",\n    \"vir_size\",\n    \"pres_size\",\n    \"x_size\",\n    \"v_size\",\n    \"f_size\",\n)\n", "TRR_DATA_ITEMS = _HEAD_ITEMS[2:5] + _HEAD_ITEMS[7:9]\n", "R-19.4", control=True, why="seeded C19_p"),
+    K("c19-keep-trr-item-table-sliced-from-the-header-table", GROMACS, "TRR_DATA_ITEMS = (\n    \"box_size\",\n    \"vir_size\",\n    \"pres_size\",\n    \"x_size\",\n    \"v_size\",\n    \"f_size\",\n)\n", "TRR_DATA_ITEMS = _HEAD_ITEMS[2:5] + _HEAD_ITEMS[7:10]\n"),
     B("c19-trr-virial-read-as-coordinates", GROMACS, "    for key in (\"box\", \"vir\", \"pres\"):\n        header_key = f\"{key}_size\"\n        if header[header_key] != 0:\n            data[key] = read_matrix(fileh, endian, double)\n    for key in (\"x\", \"v\", \"f\"):\n        header_key = f\"{key}_size\"\n        if header[header_key] != 0:\n            data[key] = read_coord(fileh, endian, double, header[\"natoms\"])\n", "    for header_key in TRR_DATA_ITEMS:\n        if header[header_key] == 0:\n            continue\n        key = header_key[: -len(\"_size\")]\n        if key == \"box\":\n            data[key] = read_matrix(fileh, endian, double)\n        else:\n            data[key] = read_coord(fileh, endian, double, header[\"natoms\"])\n", "R-19.4", control=True, why="seeded C19_o"),
     K("c19-keep-trr-blocks-read-in-one-loop", GROMACS, "    for key in (\"box\", \"vir\", \"pres\"):\n        header_key = f\"{key}_size\"\n        if header[header_key] != 0:\n            data[key] = read_matrix(fileh, endian, double)\n    for key in (\"x\", \"v\", \"f\"):\n        header_key = f\"{key}_size\"\n        if header[header_key] != 0:\n            data[key] = read_coord(fileh, endian, double, header[\"natoms\"])\n", "    for header_key in TRR_DATA_ITEMS:\n        if header[header_key] == 0:\n            continue\n        key = header_key[: -len(\"_size\")]\n        if key in (\"box\", \"vir\", \"pres\"):\n            data[key] = read_matrix(fileh, endian, double)\n        else:\n            data[key] = read_coord(fileh, endian, double, header[\"natoms\"])\n", why="one loop over the item table with the right decoder per block"),
     B("c19-g96-coordinates-by-whitespace-tokens", GROMACS, "            pos = [\n                float(line[i : i + _len]) for i in range(_pos, 4 * _len, _len)\n            ]\n", "            pos = [float(i) for i in line[_pos:].split()]\n", "R-19.1", control=True, why="seeded C19_n"),
